@@ -359,7 +359,8 @@ def run(chk, tier):
              shapes="unit, tuple 1-3, named 1-3 (integer carrier &'static i32, float carrier f64)",
              argument_templates=["none", "field idents", "reversed idents", "expressions", "name = expr aliases", "alias shadowing a field name", "width/precision arguments", ".* arguments", "self.<field> (structs)"],
              values="3 per field, full product")
-    eng = CompileEngine("C02", prelude=PRELUDE, per_bin=max(4, len(cases) // 16 + 1))
+    # 16 rustc processes run in parallel: keep each program small enough (thorough: 64 programs) that their total memory stays well below the machine's
+    eng = CompileEngine("C02", prelude=PRELUDE, per_bin=max(4, len(cases) // (16 if quick else 64) + 1))
     results = eng.run_cases(cases)
     import re
     for c in cases:
